@@ -180,8 +180,30 @@ pub fn tokens_of(x: &impl quote::ToTokens) -> String {
     x.to_token_stream().to_string()
 }
 
+/// Remove the whitespace *between tokens*; blanks inside string literals are content and stay
+/// (`#[doc = "a b"]` and `#[doc = "ab"]` are different attributes).
 pub fn nospace(s: &str) -> String {
-    s.chars().filter(|c| !c.is_whitespace()).collect()
+    let mut out = String::with_capacity(s.len());
+    let mut in_str = false;
+    let mut escaped = false;
+    for c in s.chars() {
+        if in_str {
+            out.push(c);
+            if escaped {
+                escaped = false;
+            } else if c == '\\' {
+                escaped = true;
+            } else if c == '"' {
+                in_str = false;
+            }
+        } else if c == '"' {
+            in_str = true;
+            out.push(c);
+        } else if !c.is_whitespace() {
+            out.push(c);
+        }
+    }
+    out
 }
 
 #[derive(Clone, Copy, Debug, PartialEq, Eq, PartialOrd, Ord)]
